@@ -248,6 +248,7 @@ class Source:
             if sup:
                 fields.extend(sup["fields"])
                 classvars.update(sup["classvars"])
+        own_start = len(fields)          # ctypes: a subclass's _fields_ lists only the fields it declares itself
         for st in cdef.body:
             tgt = val = None
             if isinstance(st, ast.AnnAssign) and isinstance(st.target, ast.Name):
@@ -296,7 +297,7 @@ class Source:
                     classvars[tgt] = self.eval_const(m, val)
                 except KeyError:
                     pass
-        return dict(name=name, module=mn, fields=fields, classvars=classvars, bases=self.class_bases(name))
+        return dict(name=name, module=mn, fields=fields, classvars=classvars, bases=self.class_bases(name), own_start=own_start)
 
     def ctypes_layout(self, name: str):
         """natural-alignment layout (offset, size, align) per field; (size, align) of the struct.
